@@ -288,3 +288,372 @@ def hazards(root, url):
     c = base(root, url)
     c["global"]["cert_file_mode"] = 0o777777
     yield ("huge-mode", c, {})
+
+
+# ---------------------------------------------------------------------------------------------
+# C19 (auditd): a base with EVERY optional field set, recursive mutations, more hazards.
+# Additive: base / emit / write / field_mutations / hazards above are unchanged.
+
+SUBJECT_ATTRIBUTES = ["country_name", "generation_qualifier", "given_name", "initials", "locality_name", "name",
+                      "organization_name", "organizational_unit_name", "pkcs9_email_address", "postal_address",
+                      "postal_code", "state_or_province_name", "street", "surname", "title"]
+U32_FIELDS = ("cert_file_mode", "pk_file_mode")
+
+
+def base_full(root, url, root_pem=None):
+    """A valid configuration in which every optional field of every table is set.  `root_pem`: text of a
+    PEM certificate written to <root>/root.pem and named in both root_certificates lists (left out if
+    None).  User / group names are those of the current process (they must exist)."""
+    import grp
+    import pwd
+    os.makedirs(root, exist_ok=True)
+    user = pwd.getpwuid(os.getuid()).pw_name
+    group = grp.getgrgid(os.getgid()).gr_name
+    stdin_file = os.path.join(root, "hook-stdin.txt")
+    with open(stdin_file, "w") as f:
+        f.write("input for the hook\n")
+    roots = None
+    if root_pem is not None:
+        with open(os.path.join(root, "root.pem"), "w") as f:
+            f.write(root_pem)
+        roots = [os.path.join(root, "root.pem")]
+    fmt = "{{ name }}_{{ key_type }}.{{ file_type }}.{{ ext }}"
+    cfg = {
+        "global": {"accounts_directory": os.path.join(root, "accounts"),
+                   "certificates_directory": os.path.join(root, "certs"),
+                   "cert_file_mode": 0o640, "cert_file_user": user, "cert_file_group": group, "cert_file_ext": "crt",
+                   "pk_file_mode": 0o600, "pk_file_user": user, "pk_file_group": group, "pk_file_ext": "key",
+                   "env": {"GLOBAL_VAR": "g", "SHARED": "from-global"},
+                   "file_name_format": fmt, "random_early_renew": "1h", "renew_delay": "2w"},
+        "endpoint": [{"name": "e1", "url": url, "tos_agreed": True, "rate_limits": ["rl1", "rl2"],
+                      "file_name_format": "ep-" + fmt, "random_early_renew": "2h", "renew_delay": "3w"}],
+        "rate-limit": [{"name": "rl1", "number": 20, "period": "1s"}, {"name": "rl2", "number": 500, "period": "1h"}],
+        "hook": [{"name": "h1", "type": ["challenge-http-01", "challenge-http-01-clean"], "cmd": "true",
+                  "args": ["{{ identifier }}", "{{ env.SHARED }}"], "allow_failure": True, "stdin": stdin_file,
+                  "stdout": os.path.join(root, "h1.out"), "stderr": os.path.join(root, "h1.err")},
+                 {"name": "h2", "type": ["post-operation", "file-pre-create", "file-post-create", "file-pre-edit",
+                                         "file-post-edit"], "cmd": "true", "args": [],
+                  "allow_failure": False, "stdin_str": "status {{ status }}",
+                  "stdout": os.path.join(root, "h2.out"), "stderr": os.path.join(root, "h2.err")}],
+        "group": [{"name": "g1", "hooks": ["h1", "h2"]}],
+        "account": [{"name": "a1", "contacts": [{"mailto": "a@example.org"}, {"mailto": "b@example.org"}],
+                     "env": {"ACCOUNT_VAR": "a", "SHARED": "from-account"},
+                     "external_account": {"identifier": "kid-1", "key": "c2VjcmV0LWtleS1mb3ItZWFi",
+                                          "signature_algorithm": "HS256"},
+                     "hooks": ["h2"], "key_type": "ecdsa_p384", "signature_algorithm": "ES384"}],
+        "certificate": [{"endpoint": "e1", "account": "a1",
+                         "identifiers": [{"dns": "example.org", "challenge": "http-01", "env": {"ID_VAR": "i"}},
+                                         {"ip": "192.0.2.7", "challenge": "http-01", "env": {}}],
+                         "hooks": ["g1"], "key_type": "ecdsa_p256", "csr_digest": "sha384",
+                         "directory": os.path.join(root, "crt-dir"), "env": {"CERT_VAR": "c", "SHARED": "from-cert"},
+                         "file_name_format": "crt-" + fmt, "kp_reuse": True, "name": "site",
+                         "random_early_renew": "3h", "renew_delay": "4w",
+                         "subject_attributes": {k: ("FR" if k == "country_name" else "v-" + k)
+                                                for k in SUBJECT_ATTRIBUTES}}],
+    }
+    if roots is not None:
+        cfg["global"]["root_certificates"] = list(roots)
+        cfg["endpoint"][0]["root_certificates"] = list(roots)
+    return cfg
+
+
+def _walk_get(c, path):
+    for p in path:
+        c = c[p]
+    return c
+
+
+def _raw_inline_dup(tab, k):
+    """Inline table text in which key k appears twice."""
+    items = []
+    for kk, x in tab.items():
+        items.append("%s = %s" % (_key(kk), _val(x)))
+        if kk == k:
+            items.append("%s = %s" % (_key(kk), _val(x)))
+    return Raw("{ " + ", ".join(items) + " }")
+
+
+def field_mutations_deep(cfg):
+    """Like field_mutations, but RECURSIVE: also descends into nested inline tables (env,
+    external_account, subject_attributes), lists of tables (contacts[], identifiers[] and their env)
+    and lists of strings (per element); u32 fields get -1, 2^32-1, 2^32, 2^64.  Yields (label, cfg)."""
+    huge = [0, -1, 18446744073709551615, 18446744073709551616, 4294967296]
+    u32 = [-1, 0, 0o7777, 4294967295, 4294967296, 18446744073709551616]
+    strs = ((12345, "int"), (True, "bool"), ("", "empty"), (["x"], "list"), ("é京" * 3, "unicode"),
+            ("a" * 5000, "long"), ("a\x00b", "nul"), ("a\nb", "newline"), ({"x": "y"}, "table"), (1.5, "float"))
+
+    def mut(path, f):
+        c = copy.deepcopy(cfg)
+        f(_walk_get(c, path))
+        return c
+
+    def leaf(path, lab, k, v, top):
+        """mutations of tab[k] where tab = cfg[path...]"""
+        yield ("%s.%s:delete" % (lab, k), mut(path, lambda tt: tt.pop(k)))
+        if top:
+            if path != ["global"]:
+                yield ("%s.%s:duplicate" % (lab, k), mut(path, lambda tt: tt.__setitem__(k, Dup([tt[k], tt[k]]))))
+        else:
+            # the enclosing inline table is replaced by its text with k twice
+            par, last = path[:-1], path[-1]
+            yield ("%s.%s:duplicate" % (lab, k),
+                   mut(par, lambda pp: pp.__setitem__(last, _raw_inline_dup(pp[last], k))))
+        yield ("%s.%s:unknownkey" % (lab, k), mut(path, lambda tt: tt.__setitem__("zz_" + k, 1)))
+        if isinstance(v, bool):
+            for nv, l2 in (("true", "str"), (1, "int"), ([True], "list")):
+                yield ("%s.%s:%s" % (lab, k, l2), mut(path, lambda tt: tt.__setitem__(k, nv)))
+        elif isinstance(v, int):
+            for nv in (u32 if k in U32_FIELDS else huge):
+                yield ("%s.%s:int%d" % (lab, k, nv), mut(path, lambda tt: tt.__setitem__(k, nv)))
+            for nv, l2 in (("7", "str"), (1.5, "float"), (True, "bool"), ([1], "list")):
+                yield ("%s.%s:%s" % (lab, k, l2), mut(path, lambda tt: tt.__setitem__(k, nv)))
+        elif isinstance(v, str):
+            for nv, l2 in strs:
+                yield ("%s.%s:%s" % (lab, k, l2), mut(path, lambda tt: tt.__setitem__(k, nv)))
+        elif isinstance(v, dict):
+            for nv, l2 in (({}, "emptytable"), ("x", "str"), ([], "emptylist"), (1, "int"), ([{"a": "b"}], "listoftables"),
+                           ({"k": 1}, "intvalue"), ({"k": {"n": "v"}}, "nestedvalue"), ({"": ""}, "emptykey")):
+                yield ("%s.%s:%s" % (lab, k, l2), mut(path, lambda tt: tt.__setitem__(k, nv)))
+            for k2 in list(v.keys()):
+                yield from leaf(path + [k], "%s.%s" % (lab, k), k2, v[k2], False)
+        elif isinstance(v, list):
+            for nv, l2 in (([], "emptylist"), ("x", "str"), (["nope"], "unknownref"), ([1], "intitem"), ([""], "emptyitem"),
+                           ([["x"]], "nestedlist"), ({"a": "b"}, "table"), (v + v, "doubled"), (v * 300, "x300")):
+                yield ("%s.%s:%s" % (lab, k, l2), mut(path, lambda tt: tt.__setitem__(k, nv)))
+            for j, item in enumerate(v):
+                if isinstance(item, dict):
+                    yield ("%s.%s[%d]:emptytable" % (lab, k, j), mut(path + [k], lambda ll: ll.__setitem__(j, {})))
+                    yield ("%s.%s[%d]:str" % (lab, k, j), mut(path + [k], lambda ll: ll.__setitem__(j, "x")))
+                    for k2 in list(item.keys()):
+                        yield from leaf(path + [k, j], "%s.%s[%d]" % (lab, k, j), k2, item[k2], False)
+                elif isinstance(item, str):
+                    for nv, l2 in ((1, "int"), ("", "empty"), ("a\x00b", "nul"), ("{{ nope", "template"), ("a" * 5000, "long")):
+                        yield ("%s.%s[%d]:%s" % (lab, k, j, l2), mut(path + [k], lambda ll: ll.__setitem__(j, nv)))
+
+    tables = ([("global", None)] if isinstance(cfg.get("global"), dict) else []) + \
+        [(t, i) for t in TABLE_ARRAYS for i in range(len(cfg.get(t, [])))]
+    for t, i in tables:
+        path = ["global"] if i is None else [t, i]
+        tab = _walk_get(cfg, path)
+        lab = t if i is None or len(cfg[t]) == 1 else "%s[%d]" % (t, i)
+        for k in list(tab.keys()):
+            yield from leaf(path, lab, k, tab[k], True)
+
+
+FILE_NAME_FORMATS = ["{{ name", "{{ nope }}", "", "{{ name }}/../x", "y" * 5000, "{{ name }}.{{ ext }}",
+                     "{% for i in range(end=100000000) %}x{% endfor %}", "{% for i in range(100000000) %}x{% endfor %}",
+                     "{% for i in range(100000) %}x{% endfor %}", "{{ name | rev_labels }}-{{ key_type }}.{{ file_type }}",
+                     "{{ name.a.b.c }}", "{{ 1 / 0 }}", "{{ name * 100000 }}", "{% include \"template\" %}",
+                     "{% extends \"template\" %}", "{% macro m() %}{{ m() }}{% endmacro %}{{ m() }}", "\u0000",
+                     "../../{{ name }}.{{ file_type }}"]
+
+
+def group_chain(root, url, depth, certs=1):
+    """Acyclic chain d0 -> d1 -> … -> h1 used by `certs` certificates."""
+    c = base(root, url)
+    c["group"] = [{"name": "d%d" % j, "hooks": ["d%d" % (j + 1)] if j + 1 < depth else ["h1"]} for j in range(depth)]
+    c["certificate"][0]["hooks"] = ["d0"]
+    if certs > 1:
+        c0 = c["certificate"][0]
+        c["certificate"] = [dict(c0, name="c%d" % i) for i in range(certs)]
+    return c
+
+
+def hazards_more(root, url, thorough=False):
+    """More entries of the same shape as hazards(): (label, main-file text or cfg, extra files).
+    An extra file whose text is "FIFO:" is a named pipe; label prefix `env-` = a hazard of the
+    environment rather than of the content (observed and counted by the caller, not judged)."""
+    # --- whole tables missing / duplicated (item 4)
+    c = base(root, url)
+    del c["global"]
+    yield ("no-global", c, {})
+    c = base(root, url)
+    del c["global"]
+    c["certificate"][0]["directory"] = os.path.join(root, "crt-dir")
+    yield ("no-global-certificate-directory", c, {})
+    c = base(root, url)
+    c["global"] = {}
+    yield ("empty-global", c, {})
+    c = base(root, url)
+    g = c.pop("global")
+    c["include"] = ["glob.toml"]
+    yield ("global-only-in-include", c, {"glob.toml": emit({"global": g})})
+    for t in TABLE_ARRAYS:
+        c = base(root, url)
+        del c[t]
+        yield ("table-%s-removed" % t, c, {})
+        c = base(root, url)
+        c[t] = []
+        yield ("table-%s-empty" % t, c, {})
+        c = base(root, url)
+        c[t].append(copy.deepcopy(c[t][0]))
+        yield ("table-%s-item-twice" % t, c, {})
+        c = base(root, url)
+        c["include"] = ["more.toml"]
+        yield ("table-%s-item-again-in-include" % t, c, {"more.toml": emit({t: [copy.deepcopy(c[t][0])]})})
+    # --- file name formats at the three levels (rendered at the first scheduling decision)
+    for n, fmt in enumerate(FILE_NAME_FORMATS):
+        for where in ("global", "endpoint", "certificate"):
+            c = base(root, url)
+            tgt = c["global"] if where == "global" else c[where][0]
+            tgt["file_name_format"] = fmt
+            yield ("%s-file_name_format-%d-%s" % (where, n, fmt[:24]), c, {})
+    # --- size and depth (item 5).  Acyclic chains around the nesting limit of the loader (32) and far beyond
+    # it (before the limit existed, 4.7e3 groups / 8e2 includes overflowed the stack of the dev build)
+    for depth in (30, 31, 32, 33, 34, 1000, 10000) + ((100000,) if thorough else ()):
+        yield ("group-deep-acyclic-%d" % depth, group_chain(root, url, depth), {})
+    yield ("group-deep-30-by-100-certificates", group_chain(root, url, 30, certs=100), {})
+    yield ("group-deep-200-by-100-certificates", group_chain(root, url, 200, certs=100), {})
+    for n in (2048, 2049, 5000) + ((50000,) if thorough else ()):
+        c = base(root, url)
+        c["group"] = [{"name": "g1", "hooks": ["h1", "h2"] * n}]
+        yield ("group-%d-members" % (2 * n), c, {})
+    # every level names the next one twice: 2^depth hooks
+    for depth in (11, 12, 13, 20, 31):
+        c = base(root, url)
+        c["group"] = [{"name": "d%d" % j, "hooks": ["d%d" % (j + 1)] * 2 if j + 1 < depth else ["h1", "h1"]}
+                      for j in range(depth)]
+        c["certificate"][0]["hooks"] = ["d0"]
+        yield ("group-doubling-%d" % depth, c, {})
+    # every level names the next one three times and the last one is empty: 3^depth visits, not one hook
+    for depth in (8, 31):
+        c = base(root, url)
+        c["group"] = [{"name": "d%d" % j, "hooks": ["d%d" % (j + 1)] * 3 if j + 1 < depth else []} for j in range(depth)]
+        c["certificate"][0]["hooks"] = ["d0", "h1"]
+        yield ("group-tripling-empty-%d" % depth, c, {})
+    for n in (30, 31, 32, 33, 34, 1000):
+        c = base(root, url)
+        c["include"] = ["inc0.toml"]
+        extra = {"inc%d.toml" % i: 'include = ["inc%d.toml"]\n' % (i + 1) for i in range(n)}
+        extra["inc%d.toml" % n] = "\n"
+        yield ("include-chain-%d" % n, c, extra)
+    n = 1000 if thorough else 300
+    c = base(root, url)
+    c["include"] = ["part-*.toml"]
+    yield ("include-fan-%d" % n, c, {"part-%d.toml" % i: emit({"hook": [{"name": "x%d" % i, "type": ["post-operation"],
+                                                                        "cmd": "true"}]}) for i in range(n)})
+    text = emit(base(root, url))
+    for n in (100, 10000) + ((100000,) if thorough else ()):
+        yield ("toml-nested-array-%d" % n,
+               text.replace('args = ["{{ identifier }}"]', "args = " + "[" * n + '"x"' + "]" * n), {})
+        yield ("toml-nested-table-%d" % n,
+               text.replace('hooks = ["g1"]', 'hooks = ["g1"]\nenv = ' + "{ a = " * n + '"x"' + " }" * n), {})
+    mb = 20 if thorough else 4
+    yield ("toml-%dMB-comment-line" % mb, "# " + "x" * (mb * 2 ** 20) + "\n" + text, {})
+    yield ("toml-%dMB-comment-lines" % mb, ("# " + "x" * 70 + "\n") * (mb * 2 ** 20 // 73) + text, {})
+    # (not in a TEMPLATE field — hook args, stdin_str, file_name_format: minijinja 2.8 counts lines and columns
+    # in 16 bits and the overflow-checked dev build panics on a line of 65536 characters; see the report)
+    c = base(root, url)
+    c["certificate"][0]["env"] = {"BIG": "y" * (mb * 2 ** 20)}
+    yield ("toml-%dMB-string" % mb, c, {})
+    c = base(root, url)
+    c["hook"][0]["args"] = ["y"] * (200000 if thorough else 20000)
+    yield ("toml-%d-args" % len(c["hook"][0]["args"]), c, {})
+    c = base(root, url)
+    c["certificate"][0]["env"] = {"K%d" % i: "v" for i in range(20000)}
+    yield ("certificate-env-20000", c, {})
+    c = base(root, url)
+    c["certificate"][0]["identifiers"] = [{"dns": "h%d.example.org" % i, "challenge": "http-01"} for i in range(2000)]
+    yield ("identifiers-2000", c, {})
+    c = base(root, url)
+    c0 = c["certificate"][0]
+    c["certificate"] = [dict(c0, name="c%d" % i) for i in range(500)]
+    yield ("certificates-500", c, {})
+    for per in ("1s" * 10000, "0" * 1000 + "5s", "9" * 1000 + "s", "0" * 100000 + "1s"):
+        for where, key in (("global", "renew_delay"), ("certificate", "random_early_renew")):
+            c = base(root, url)
+            (c["global"] if where == "global" else c[where][0])[key] = per
+            yield ("%s-%s-long-%d-%s" % (where, key, len(per), per[:6]), c, {})
+        c = base(root, url, rate=(5, per))
+        yield ("rate-5-long-%d-%s" % (len(per), per[:6]), c, {})
+    # --- more cycle shapes (item 6)
+    for n in (4, 5, 8, 17, 50):
+        c = base(root, url)
+        names = ["cyc%d" % j for j in range(n)]
+        c["group"] = [{"name": names[j], "hooks": ["h1", names[(j + 1) % n]]} for j in range(n)]
+        c["certificate"][0]["hooks"] = [names[0]]
+        yield ("group-cycle-%d" % n, c, {})
+    # a tail leading INTO a cycle: the entry group is not part of it
+    for tail in (1, 2, 5):
+        for n in (1, 2, 3, 7):
+            c = base(root, url)
+            names = ["cyc%d" % j for j in range(n)]
+            tails = ["tail%d" % j for j in range(tail)]
+            c["group"] = [{"name": tails[j], "hooks": ["h2", tails[j + 1] if j + 1 < tail else names[0]]} for j in range(tail)]
+            c["group"] += [{"name": names[j], "hooks": ["h1", names[(j + 1) % n]]} for j in range(n)]
+            c["certificate"][0]["hooks"] = [tails[0]]
+            yield ("group-cycle-%d-after-tail-%d" % (n, tail), c, {})
+    c = base(root, url)
+    c["group"] = [{"name": "fine", "hooks": ["h1", "h2"]}, {"name": "a", "hooks": ["b"]}, {"name": "b", "hooks": ["a"]}]
+    c["certificate"][0]["hooks"] = ["fine", "a"]
+    yield ("group-cycle-through-second-certificate-hook", c, {})
+    c2 = copy.deepcopy(c)
+    c2["certificate"][0]["hooks"] = ["h1"]
+    c2["account"][0]["hooks"] = ["fine", "a"]
+    yield ("group-cycle-through-second-account-hook", c2, {})
+    c = base(root, url)
+    c["group"] = [{"name": "top", "hooks": ["left", "right"]}, {"name": "left", "hooks": ["leaf"]},
+                  {"name": "right", "hooks": ["leaf"]}, {"name": "leaf", "hooks": ["h1", "top"]}]
+    c["certificate"][0]["hooks"] = ["top"]
+    yield ("group-diamond-with-back-edge", c, {})
+    c = base(root, url)
+    c["group"] = [{"name": "a0", "hooks": ["a1"]}, {"name": "a1", "hooks": ["a0"]},
+                  {"name": "b0", "hooks": ["h1", "b1"]}, {"name": "b1", "hooks": ["h2", "b0"]}]
+    c["certificate"][0]["hooks"] = ["a0", "b0"]
+    yield ("group-two-disjoint-cycles", c, {})
+    c = base(root, url)
+    c["group"].append({"name": "u0", "hooks": ["u1"]})
+    c["group"].append({"name": "u1", "hooks": ["u0", "u1"]})
+    yield ("group-cycle-unreferenced", c, {})
+    c = base(root, url)
+    c["group"] = [{"name": "g1", "hooks": ["h1", "h2"]}, {"name": "g1", "hooks": ["g1"]}]
+    yield ("group-same-name-second-cyclic", c, {})
+    c = base(root, url)
+    c["group"] = [{"name": "g1", "hooks": []}]
+    yield ("group-empty", c, {})
+    # --- more include shapes (item 6)
+    c = base(root, url)
+    c["include"] = ["sub"]
+    yield ("include-directory", c, {"sub/inner.toml": "\n"})
+    c = base(root, url)
+    c["include"] = ["sub/"]
+    yield ("include-directory-slash", c, {"sub/inner.toml": "\n"})
+    shared = write(os.path.join(root, "shared-abs", "inc.toml"),
+                   emit({"hook": [{"name": "abs-hook", "type": ["post-operation"], "cmd": "true"}]}))
+    c = base(root, url)
+    c["include"] = [shared]
+    yield ("include-absolute-path", c, {})
+    c = base(root, url)
+    c["include"] = [os.path.join(root, "shared-abs", "*.toml"), shared]
+    yield ("include-absolute-glob-and-path", c, {})
+    c = base(root, url)
+    c["include"] = ["*"]
+    yield ("include-star-mixed", c, {"notes.txt": "this is = not = toml\n", "sub/keep.txt": "x\n",
+                                     "other.toml": emit({"hook": [{"name": "o", "type": ["post-operation"], "cmd": "true"}]})})
+    c = base(root, url)
+    c["include"] = ["*.toml"]
+    yield ("include-star-toml-clean", c, {"other.toml": emit({"hook": [{"name": "o", "type": ["post-operation"],
+                                                                           "cmd": "true"}]})})
+    c = base(root, url)
+    c["include"] = ["inc_a.toml"]
+    yield ("include-glob-matching-the-including-file", c, {"inc_a.toml": 'include = ["inc_*.toml", "*.toml"]\n',
+                                                            "inc_b.toml": 'include = ["inc_?.toml"]\n'})
+    c = base(root, url)
+    c["include"] = ["[", "***", "a/**/b", "\u0000"]
+    yield ("include-bad-patterns", c, {})
+    c = base(root, url)
+    c["include"] = ["dangling.toml"]
+    yield ("include-dangling-symlink", c, {"dangling.toml": "SYMLINK:nowhere.toml"})
+    c = base(root, url)
+    c["include"] = ["loop.toml"]
+    yield ("include-symlink-loop", c, {"loop.toml": "SYMLINK:loop.toml"})
+    c = base(root, url)
+    c["include"] = ["inc_a.toml", "inc_a.toml", "./inc_a.toml"]
+    yield ("include-same-file-thrice", c, {"inc_a.toml": emit({"hook": [{"name": "o", "type": ["post-operation"],
+                                                                          "cmd": "true"}]})})
+    c = base(root, url)
+    c["include"] = ["/dev/null", "null.toml"]
+    yield ("include-dev-null", c, {"null.toml": "SYMLINK:/dev/null"})
+    c = base(root, url)
+    c["include"] = ["pipe.toml"]
+    yield ("env-include-fifo", c, {"pipe.toml": "FIFO:"})
